@@ -143,7 +143,9 @@ structure St where
   runs : List RunRec := []
   branches : List String := []
   nontrivial : Bool := false
+  mm : Option String := none              -- first model/implementation difference (the spec is still evaluated on what follows)
 
+def noteMM (st : St) (d : String) : St := if st.mm.isSome then st else { st with mm := some d }
 def addBr (st : St) (b : String) : St := if st.branches.contains b then st else { st with branches := b :: st.branches }
 def addBrs (st : St) (bs : List String) : St := bs.foldl addBr st
 
@@ -179,7 +181,7 @@ def judgeLine (st : St) (l : String) : Except Verdict St := do
     let st := { st with kind := "cq", cq := q, cqSpec := buf }
     let st := addBr st (if buf.length < 4 then "new-small" else "new-full")
     if obs.getLast? != some ("c=" ++ renderList (buf.map toString)) then throw (.specfail "queue-is-fifo" s!"new: spec {buf} observed {obs}")
-    if obs != cqRender q then throw (.mismatch s!"cq new: model {cqRender q} observed {obs}")
+    let st := if obs != cqRender q then noteMM st s!"cq new: model {cqRender q} observed {obs}" else st
     pure st
   | ["cq", "enq", v] =>
     let some v := v.toNat? | throw (.badop l)
@@ -187,7 +189,7 @@ def judgeLine (st : St) (l : String) : Except Verdict St := do
     let q := st.cq.enqueue v
     let sp := Spec.qStep st.cqSpec (.enq v)
     if obs.getLast? != some ("c=" ++ renderList (sp.map toString)) then throw (.specfail "queue-is-fifo" s!"enq {v}: spec {sp} observed {obs}")
-    if obs != cqRender q then throw (.mismatch s!"cq enq: model {cqRender q} observed {obs}")
+    let st := if obs != cqRender q then noteMM st s!"cq enq: model {cqRender q} observed {obs}" else st
     pure { st with cq := q, cqSpec := sp, nontrivial := st.nontrivial || st.cq.head > 0 }
   | ["cq", "deq", n] =>
     let some n := n.toInt? | throw (.badop l)
@@ -195,7 +197,7 @@ def judgeLine (st : St) (l : String) : Except Verdict St := do
     let q := st.cq.dequeue n
     let sp := Spec.qStep st.cqSpec (.deq n)
     if obs.getLast? != some ("c=" ++ renderList (sp.map toString)) then throw (.specfail "queue-is-fifo" s!"deq {n}: spec {sp} observed {obs}")
-    if obs != cqRender q then throw (.mismatch s!"cq deq: model {cqRender q} observed {obs}")
+    let st := if obs != cqRender q then noteMM st s!"cq deq: model {cqRender q} observed {obs}" else st
     pure { st with cq := q, cqSpec := sp }
   | ["cq", "peek", i] =>
     let some i := i.toInt? | throw (.badop l)
@@ -203,7 +205,7 @@ def judgeLine (st : St) (l : String) : Except Verdict St := do
     let m := match st.cq.peek i with | none => "panic" | some s => toString (s.getD 0)
     let st := addBr st (if sp == "panic" then "peek-out-of-range" else if st.cq.head + i.toNat ≥ st.cq.cap then "peek-wrapped" else "peek-plain")
     if obs != [sp] then throw (.specfail "queue-is-fifo" s!"peek {i}: spec {sp} observed {obs}")
-    if obs != [m] then throw (.mismatch s!"cq peek: model {m} observed {obs}")
+    let st := if obs != [m] then noteMM st s!"cq peek: model {m} observed {obs}" else st
     pure st
   /- ---------------- union ---------------- -/
   | "union" :: "new" :: rest =>
@@ -291,7 +293,7 @@ def judgeLine (st : St) (l : String) : Except Verdict St := do
       let (_, ss, stt) := JNode.finish nd.groups
       if stt != .ok then throw (.mismatch s!"{l}: model status {statusTok stt}")
       let mdl := sortStrings (((sets ++ ss).filterMap (joinIntoPoint st.jcfg)).map renderOut)
-      if mdl != got then throw (.mismatch s!"real task join: model {mdl} observed {got}")
+      let st := if mdl != got then noteMM st s!"real task join: model {mdl} observed {got}" else st
       let r : RunRec := { cfg := st.tCfgText, seqs := seqs, out := got }
       match crossCheck st r with
       | some d => throw (.specfail "join-interleaving-independent" d)
@@ -322,7 +324,7 @@ def judgeLine (st : St) (l : String) : Except Verdict St := do
       let (_, mo) := (Union.run st.uRename st.jcfg.parents (arrivals.map (fun a =>
         (a.1, ({ time := a.2.time, id := idOf a.2, kind := 0, name := a.2.name } : UMsg)))) : UState (WCQ UMsg) × _)
       let canon (o : List (Nat × UMsg)) := sortStrings (o.map (fun p => s!"{p.1}:{p.2.id}:{p.2.time}:{esc p.2.name}"))
-      if canon mo != canon tagged then throw (.mismatch s!"real task union: model {canon mo} observed {canon tagged}")
+      let st := if canon mo != canon tagged then noteMM st s!"real task union: model {canon mo} observed {canon tagged}" else st
       let st := addBr st "task-union"
       pure { st with nontrivial := st.nontrivial || (tagged.map (·.1)).eraseDups.length ≥ 2 }
   | _ => throw (.badop l)
@@ -357,7 +359,7 @@ where
       throw (.specfail "union-sorted" s!"{l}: emitted {uRenderOut obsAll}")
     let mdl := [uRenderOut out, uRenderState s']
     if !ok then throw (.mismatch s!"{l}: model ran out of fuel")
-    if obs != mdl then throw (.mismatch s!"{l}: model {mdl} observed {obs}")
+    let st := if obs != mdl then noteMM st s!"{l}: model {mdl} observed {obs}" else st
     let mut st := { st with un := s', uObs := tagged.reverse ++ st.uObs }
     st := addBr st (if out.isEmpty then (if st.un.lowMarks.any Option.isNone then "u-wait-for-silent-parent" else "u-nothing-ready") else "u-emit")
     if !ordered then st := addBr st "u-unordered-parent"
@@ -400,7 +402,7 @@ where
     let mOut := if fin then sortStrings mOut else mOut
     let mdl := [toString mOut.length] ++ mOut ++ ["|"] ++ renderGroups nd
     if status != .ok then throw (.mismatch s!"{l}: model status {statusTok status}, observed {obs}")
-    if obs != mdl then throw (.mismatch s!"{l}: model {mdl} observed {obs}")
+    let st := if obs != mdl then noteMM st s!"{l}: model {mdl} observed {obs}" else st
     ignore stToks
     let mut st := { st with jn := nd, jObs := obsAll }
     if !ordered then st := addBr st "j-unordered-parent"
@@ -439,7 +441,9 @@ def judge (_id : String) (lines : Array String) : Verdict := Id.run do
     match judgeLine st l with
     | .ok s => st := s
     | .error v => return v
-  return .ok st.nontrivial st.branches.reverse
+  match st.mm with
+  | some d => return .mismatch d
+  | none => return .ok st.nontrivial st.branches.reverse
 
 end Kap.C12.Drv
 
